@@ -81,12 +81,19 @@ struct SpecOut {
     nodes: u64,
 }
 fn spec_decode(data: &[u8]) -> Option<SpecOut> {
-    let header = *data.first()?;
+    let (o, valid) = spec_decode_partial(data);
+    valid.then_some(o)
+}
+/// (what was decoded before the algorithm stopped, whether it ended without error)
+fn spec_decode_partial(data: &[u8]) -> (SpecOut, bool) {
+    let Some(&header) = data.first() else {
+        return (SpecOut { ranges: vec![], consumed: 0, filled: 0, nodes: 0 }, false);
+    };
     let b: u128 = [2u128, 4, 8, 32][(header & 3) as usize];
     let h = ((header >> 2) & 31) as u32;
     let mut out = SpecOut { ranges: vec![], consumed: 1, filled: 0, nodes: 0 };
     if h == 0 {
-        return Some(out);
+        return (out, true);
     }
     let mut bits: VecDeque<bool> = VecDeque::new();
     for byte in &data[1..] {
@@ -99,7 +106,7 @@ fn spec_decode(data: &[u8]) -> Option<SpecOut> {
     q.push_back((0, 1));
     while let Some((start, depth)) = q.pop_front() {
         if (bits.len() as u128) < b {
-            return None;
+            return (out, false);
         }
         let v: Vec<bool> = (0..b).map(|_| bits.pop_front().unwrap()).collect();
         out.nodes += 1;
@@ -120,7 +127,7 @@ fn spec_decode(data: &[u8]) -> Option<SpecOut> {
     }
     let used = total_bits - bits.len();
     out.consumed = 1 + (used + 7) / 8;
-    Some(out)
+    (out, true)
 }
 /// b^e, saturating (only reachable for heights the implementation does not support)
 fn spow(b: u128, e: u32) -> u128 {
@@ -153,8 +160,8 @@ impl Ctx {
         let spec = spec_decode(data);
         let supported = data.first().map(|h| ((h >> 2) & 31) <= max_height(*h)).unwrap_or(true);
         // keep the real BitSet small: a filled node near the root would allocate 2^23 pages
-        if let (Some(s), true) = (&spec, supported) {
-            if count(&spec_clip(&s.ranges, bias, max)) > (1 << 21) {
+        if supported {
+            if count(&spec_clip(&spec_decode_partial(data).0.ranges, bias, max)) > (1 << 21) {
                 max = max.min(bias.saturating_add(1 << 19));
                 self.st.count("dec.max_clamped_for_memory");
             }
